@@ -13,7 +13,8 @@ EXPLANATION = (
     "with LLVMBuildRet/LLVMBuildRetVoid; R4 IR is only generated from resolved trees: generator.declare is called on "
     "the Ok edge of resolver::resolve only, and Compiler::compile verifies the module after generating every "
     "declaration; R5 every LLVM global/function/struct created by declare is registered under the declaration's "
-    "resolution_id before use; R7 (shared with C01) struct insert/extract/GEP indices derive from the member offset the typer "
+    "resolution_id before use; R6 a function keeps its symbol name although constants are globals in the same LLVM namespace "
+    "(the name is freed before LLVMAddFunction); R7 (shared with C01) struct insert/extract/GEP indices derive from the member offset the typer "
     "resolved by name, never from source position (constant aggregates of the wrong shape pass the in-process verifier "
     "and are only rejected by llvm-as). Validity of every emitted instruction is decided by LLVM at run time: not decided.")
 
@@ -187,6 +188,43 @@ def r5_registration(run, F):
         run.ob("R5-REGISTRATION", "key of %s" % f, "resolution_id" in names, F.where(d, c), "registered under name.resolution_id")
 
 
+def r6_symbol_namespace(run, F):
+    """LLVM has one namespace for globals and functions; Penne has separate ones for constants and functions. A function
+    must end up under its own name (LLVMAddFunction silently renames on a clash: `helper.1`)."""
+    from rules import origins
+    d = F.body("alpha::generator::declare")
+    site = {}
+    for c in hirq.calls(d["hir"]):
+        cn = (hirq.callee(c) or "").split("::")[-1]
+        if cn in ("LLVMAddGlobal", "LLVMAddFunction", "LLVMGetNamedGlobal", "LLVMSetValueName", "LLVMSetValueName2"):
+            site.setdefault(cn, []).append(c)
+    run.require(len(site.get("LLVMAddGlobal", [])) == 1 and len(site.get("LLVMAddFunction", [])) == 1,
+                "generator::declare: expected one LLVMAddGlobal and one LLVMAddFunction")
+    g, f = site["LLVMAddGlobal"][0], site["LLVMAddFunction"][0]
+    og = origins.origins(d["hir"], g["a"][2], d.get("params", ()))
+    of = origins.origins(d["hir"], f["a"][1], d.get("params", ()))
+
+    def decorated(o):
+        return any(x[0] == "call" and ("format" in x[1] or "push_str" in x[1] or "concat" in x[1]) for x in o) or \
+            any(x[0] == "lit" and isinstance(x[1], str) and x[1] for x in o)
+    disjoint = decorated(og) != decorated(of)
+    frees = False
+    for q in site.get("LLVMGetNamedGlobal", []):
+        oq = origins.origins(d["hir"], q["a"][1], d.get("params", ()))
+        same_name = ("patfield", "Declaration::Function", "name") in oq and ("patfield", "Declaration::FunctionHead", "name") in oq
+        renames = [r for r in site.get("LLVMSetValueName", []) + site.get("LLVMSetValueName2", [])
+                   if ("call", "llvm_sys::core::LLVMGetNamedGlobal") in origins.origins(d["hir"], r["a"][0], d.get("params", ()))]
+        if same_name and renames and q["l"] < f["l"] and all(r["l"] < f["l"] for r in renames):
+            frees = True
+    # alternatively the scoper could reject a function and a constant of the same name
+    AN = "alpha::scoper::variable_references::Analyzer::"
+    df = F.body(AN + "declare_function")
+    cross = any(x.get("k") == "Field" and x.get("name") in ("containers", "variable_stack") for x in walk(df["hir"]))
+    run.ob("R6-SYMBOL-NAMESPACE", "constant vs function", disjoint or frees or cross, F.where(d, f),
+           "a constant (private global `@name`) and a function of the same name: the function must keep its symbol name "
+           "(global names decorated: %s, name freed before LLVMAddFunction: %s, rejected by the scoper: %s)" % (disjoint, frees, cross))
+
+
 def check(run):
     F = run.facts("B")
     r1_reset(run, F)
@@ -194,6 +232,7 @@ def check(run):
     r3_order(run, F)
     r4_only_resolved(run, F)
     r5_registration(run, F)
+    r6_symbol_namespace(run, F)
     # aggregate constants are not inspected by the in-process verifier: an insertvalue chain of constants with a wrong
     # index folds into a constant of the wrong shape that only the textual IR reader rejects (shared with C01.R7)
     from props import c01
